@@ -411,6 +411,11 @@ func (g *G) constOf(t *am.Type, depth int) *am.Const {
 			return &am.Const{K: k, T: t}
 		}
 	}
+	if depth > 0 && !g.off("rich-constexpr") && g.chance("richexpr", 1, 9) {
+		if e := g.richExpr(t, depth-1); e != nil {
+			return e
+		}
+	}
 	switch t.K {
 	case am.Int:
 		if depth > 0 && g.chance("iexpr", 1, 6) {
@@ -426,6 +431,11 @@ func (g *G) constOf(t *am.Type, depth int) *am.Const {
 	case am.Vec:
 		if t.Scalable {
 			return &am.Const{K: []am.CKind{am.CZero, am.CUndef, am.CPoison}[g.intn("svc", 3)], T: t}
+		}
+		if strings.HasPrefix(t.Elem.String(), "{") {
+			// `<{` starts a packed struct constant in LLVM's grammar (with or without a space): a vector
+			// constant whose first element type begins with a brace cannot be written element by element
+			return &am.Const{K: []am.CKind{am.CZero, am.CUndef, am.CPoison}[g.intn("bracevec", 3)], T: t}
 		}
 		c := &am.Const{K: am.CVector, T: t}
 		splat := g.chance("splat", 1, 3)
@@ -570,6 +580,143 @@ func (g *G) gepExprTo(t *am.Type) *am.Const {
 				Args: []*am.Const{{K: am.CGlobal, T: gl.PtrType(), Ref: gl}, i0, i1}}
 			g.feat("constexpr/getelementptr")
 			return &am.Const{K: am.CExpr, T: t, Expr: e}
+		}
+	}
+	return nil
+}
+
+// richExpr draws a constant expression of type t from the kinds that involve floating point, vectors
+// (fixed and scalable) and conversions: fcmp, icmp on vectors, select on vectors, fneg, the fp casts,
+// extractelement, insertelement, shufflevector. nil = no form for this type.
+func (g *G) richExpr(t *am.Type, depth int) *am.Const {
+	mk := func(e *am.Expr) *am.Const {
+		e.InRange = -1
+		g.feat("constexpr/" + e.Op)
+		if t.K == am.Vec {
+			g.feat("constexpr/vector-typed")
+			if t.Scalable {
+				g.feat("constexpr/scalable-vector-typed")
+			}
+		}
+		return &am.Const{K: am.CExpr, T: t, Expr: e}
+	}
+	i32 := func(n int64) *am.Const { return &am.Const{K: am.CInt, T: am.I32, Int: big.NewInt(n)} }
+	vecOf := func(like *am.Type, elem *am.Type) *am.Type {
+		v := am.V(like.Len, elem)
+		v.Scalable = like.Scalable
+		return v
+	}
+	fkinds := []string{"half", "float", "double"}
+	fidx := func(k string) int {
+		for i, x := range fkinds {
+			if x == k {
+				return i
+			}
+		}
+		return -1
+	}
+	switch t.K {
+	case am.Float:
+		switch g.intn("fexprkind", 6) {
+		case 0:
+			return mk(&am.Expr{Op: "fneg", Args: []*am.Const{g.constOf(t, depth)}})
+		case 1:
+			if i := fidx(t.FK); i >= 0 && i < 2 {
+				return mk(&am.Expr{Op: "fptrunc", To: t, Args: []*am.Const{g.constOf(am.F(fkinds[i+1]), depth)}})
+			}
+		case 2:
+			if i := fidx(t.FK); i > 0 {
+				return mk(&am.Expr{Op: "fpext", To: t, Args: []*am.Const{g.constOf(am.F(fkinds[i-1]), depth)}})
+			}
+		case 3:
+			return mk(&am.Expr{Op: g.pick("itofp", []string{"sitofp", "uitofp"}), To: t, Args: []*am.Const{g.constOf(g.intType(), depth)}})
+		case 4:
+			n := uint64(g.rng("eevlen", 1, 4))
+			return mk(&am.Expr{Op: "extractelement", Args: []*am.Const{g.constOf(am.V(n, t), depth), i32(int64(g.intn("eeidx", int(n))))}})
+		default:
+			return mk(&am.Expr{Op: "select", Args: []*am.Const{g.constOf(am.I1, depth), g.constOf(t, depth), g.constOf(t, depth)}})
+		}
+	case am.Int:
+		switch g.intn("iexprkind2", 3) {
+		case 0:
+			if t.Bits == 1 {
+				ft := g.floatType()
+				return mk(&am.Expr{Op: "fcmp", Pred: g.pick("fpred", FPreds), Args: []*am.Const{g.constOf(ft, depth), g.constOf(ft, depth)}})
+			}
+			return mk(&am.Expr{Op: g.pick("fptoi", []string{"fptosi", "fptoui"}), To: t, Args: []*am.Const{g.constOf(g.floatType(), 0)}})
+		case 1:
+			n := uint64(g.rng("eevlen", 1, 4))
+			return mk(&am.Expr{Op: "extractelement", Args: []*am.Const{g.constOf(am.V(n, t), depth), i32(int64(g.intn("eeidx", int(n))))}})
+		default:
+			if t.Bits >= 16 && t.Bits <= 64 && t.Bits&(t.Bits-1) == 0 {
+				// bitcast of a vector of narrower integers
+				half := am.I(t.Bits / 2)
+				return mk(&am.Expr{Op: "bitcast", To: t, Args: []*am.Const{g.constOf(am.V(2, half), depth)}})
+			}
+		}
+	case am.Vec:
+		elem := t.Elem
+		scal := t.Scalable
+		switch g.intn("vexprkind", 5) {
+		case 0:
+			if elem.K == am.Int && elem.Bits == 1 {
+				if g.chance("vfcmp", 1, 2) {
+					ot := vecOf(t, g.floatType())
+					return mk(&am.Expr{Op: "fcmp", Pred: g.pick("fpred", FPreds), Args: []*am.Const{g.constOf(ot, depth), g.constOf(ot, depth)}})
+				}
+				ot := vecOf(t, g.intType())
+				return mk(&am.Expr{Op: "icmp", Pred: g.pick("ipred", IPreds), Args: []*am.Const{g.constOf(ot, depth), g.constOf(ot, depth)}})
+			}
+			if elem.K == am.Float {
+				return mk(&am.Expr{Op: "fneg", Args: []*am.Const{g.constOf(t, depth)}})
+			}
+		case 1:
+			// shufflevector: the result takes the mask's length (and scalability), the element type of the operands
+			if elem.K == am.Int || elem.K == am.Float || elem.K == am.Ptr {
+				m := uint64(g.rng("shufsrc", 1, 4))
+				src := am.V(m, elem)
+				src.Scalable = scal
+				var mask *am.Const
+				mt := vecOf(t, am.I32)
+				if scal {
+					// (llvm-as-14 folds a scalable shuffle with an undef mask to a *fixed* vector and then
+					// rejects its own result: only the zeroinitializer mask is usable)
+					mask = &am.Const{K: am.CZero, T: mt}
+				} else {
+					mask = &am.Const{K: am.CVector, T: mt}
+					for i := uint64(0); i < t.Len; i++ {
+						if g.chance("maskundef", 1, 6) {
+							mask.Elems = append(mask.Elems, &am.Const{K: am.CUndef, T: am.I32})
+						} else {
+							mask.Elems = append(mask.Elems, i32(int64(g.intn("maskidx", int(2*m)))))
+						}
+					}
+				}
+				return mk(&am.Expr{Op: "shufflevector", Args: []*am.Const{g.constOf(src, depth), g.constOf(src, depth), mask}})
+			}
+		case 2:
+			if elem.K == am.Int || elem.K == am.Float || elem.K == am.Ptr {
+				idx := int64(0)
+				if !scal {
+					idx = int64(g.intn("ieidx", int(t.Len)))
+				}
+				return mk(&am.Expr{Op: "insertelement", Args: []*am.Const{g.constOf(t, depth), g.constOf(elem, 0), i32(idx)}})
+			}
+		case 3:
+			cond := am.I1
+			if g.chance("veccond", 1, 2) {
+				cond = vecOf(t, am.I1)
+			}
+			return mk(&am.Expr{Op: "select", Args: []*am.Const{g.constOf(cond, depth), g.constOf(t, depth), g.constOf(t, depth)}})
+		default:
+			if elem.K == am.Float {
+				if i := fidx(elem.FK); i >= 0 && i < 2 {
+					return mk(&am.Expr{Op: "fptrunc", To: t, Args: []*am.Const{g.constOf(vecOf(t, am.F(fkinds[i+1])), depth)}})
+				}
+			}
+			if elem.K == am.Int && elem.Bits > 1 {
+				return mk(&am.Expr{Op: g.pick("fptoi", []string{"fptosi", "fptoui"}), To: t, Args: []*am.Const{g.constOf(vecOf(t, g.floatType()), 0)}})
+			}
 		}
 	}
 	return nil
